@@ -453,6 +453,9 @@ pub fn attack_stage<V: Cv>(e: &Entry<V>, input: &Vec<Val>, input_index: usize, k
                     st.cand_noncanonical_identity += 1;
                 }
             }
+            Verdict::Unjudged => {
+                rep.count(&format!("{}.candidate_with_unenforced_precondition_violated", V::NAME));
+            }
             bad => {
                 st.cand_bad += 1;
                 let mock = mock_overlay(k, &rel, input, &bound, &tables);
@@ -470,7 +473,7 @@ pub fn attack_stage<V: Cv>(e: &Entry<V>, input: &Vec<Val>, input_index: usize, k
                     Verdict::InvalidInput(w) => ("accepts-invalid-input", format!("the circuit accepts a public input that is not a value of the assigned type ({w})")),
                     Verdict::OutsideDomain => ("accepts-outside-domain", "the circuit accepts operands outside the operation's documented domain".to_string()),
                     Verdict::WrongOutput(w) => ("forged-output", format!("the circuit accepts a result different from the group operation ({w})")),
-                    Verdict::Consistent => unreachable!(),
+                    Verdict::Consistent | Verdict::Unjudged => unreachable!(),
                 };
                 let w = json!({"entry": name, "input_index": input_index, "input": format!("{input:?}"), "k": k, "attack": t.label,
                     "honest_instance": pi.iter().map(hexf).collect::<Vec<_>>(), "bound_instance": bound.iter().map(hexf).collect::<Vec<_>>(),
